@@ -307,7 +307,7 @@ def finding_run(ctx, exe, line, env=None):
 # ------------------------------------------------------------------------- main
 def run(ctx):
     rng = ctx.rng
-    ctx.regen(["Dest", "StdHuff", "WorstCase"])
+    ctx.regen(["Dest", "StdHuff", "WorstCase", "XformIcc"])
     ctx.prove()
     drv = ctx.model_driver()
     srcs = ["c13.c", "c13_ijg.c"]
@@ -323,6 +323,11 @@ def run(ctx):
                 rc, o, err = finding_run(ctx, exes.get(fl, exes["simd"]), l, env=asan_env if fl == "asan" else None)
                 ctx.log("replay", fl, "rc=%d" % rc, "\n  impl :", o[:400], "\n  model:", (ml[0] if ml else "-")[:400], "\n ", err[-600:])
                 if rc != 0 or BAD_TOKENS.search(o):
+                    ctx.violation("replayed: " + r.get("what", "")[:200], r, signature=r.get("signature"))
+            elif l.startswith("xicc"):
+                rc, o, err = finding_run(ctx, exes["simd"], l)
+                ctx.log("replay rc=%d %s" % (rc, o[:300]))
+                if rc != 0 or "norealloc=ok" not in o:
                     ctx.violation("replayed: " + r.get("what", "")[:200], r, signature=r.get("signature"))
             else:
                 rc, o, err = finding_run(ctx, exes["simd"], l)
@@ -343,10 +348,18 @@ def run(ctx):
 
     # ---- pass 1: sizes of the real-encoder operations
     specs = make_specs(rng, ctx.n(40, 160))
+    hostile = [(0, 8, 8, GRAY, 3, 90, pat, 0, 0, 128 | 64) for pat in range(8)] + \
+              [(0, 16, 8, GRAY, 3, 90, pat, 0, 0, 128 | 64) for pat in (0, 3, 4)] + \
+              [(0, 8, 8, RGB, 0, 90, pat, 0, 0, 128 | 64) for pat in (0, 3)] + \
+              [(0, 8, 8, GRAY, 3, 90, 0, 0, 0, 128 | 64 | 2), (0, 8, 8, GRAY, 3, 90, 3, 500, 0, 128)]
+    specs = specs + hostile
     rc, out, err = run_lines(exes["simd"], ["size " + spec_str(s) for s in specs])
     sized = []
+    sos_of = {}
     for s, o in zip(specs, out):
-        m = re.match(r"size (\d+) dec=(\w+)", o)
+        m = re.match(r"size (\d+) dec=(\w+)(?: sos=(\d+))?", o)
+        if m and m.group(3):
+            sos_of[s] = int(m.group(3))
         if m and int(m.group(1)) > 0:
             if m.group(2) != "ok":
                 ctx.violation("library output does not decode: " + spec_str(s), {"lines": ["size " + spec_str(s)], "impl": o},
@@ -381,10 +394,71 @@ def run(ctx):
         nct = len(t_lines)
         for _ in range(ctx.n(900, 10000)):
             t_lines.append(gen_history(rng, "tjx", rng.range(1, 4), t_call_maker))
+    # ---- H: maximal-magnitude coefficients (tj3Transform custom filter) through the real encoder with capacities
+    #         leaving 200..520 bytes at a hostile block: the window in which a block longer than the jchuff.c
+    #         staging threshold would be written past the buffer (guard page behind every block, ASan subset)
+    h_lines = []
+    sizes = dict(sized)
+    step = ctx.n(3, 1)
+    for hs in hostile:
+        if hs not in sizes or hs not in sos_of:
+            continue
+        n, sos = sizes[hs], sos_of[hs]
+        nblocks = (hs[1] // 8) * (hs[2] // 8) * (3 if hs[3] == RGB else 1)
+        blen = max(1, (n - sos - 2) // nblocks)
+        for k in range(nblocks if hs[1] > 8 or hs[3] == RGB else 1):
+            off = rng.below(step)
+            for leave in range(200 + off, 521, step):
+                cap = sos + k * blen + leave
+                h_lines.append("hist tjx ; A %d 0 ; J %d %d %s ; F" % (cap, (leave + k) & 1, n, spec_str(hs)))
+    nh = run_stream(ctx, "H", h_lines, drv, exes, 2)
     nd = run_stream(ctx, "D", d_lines, drv, exes, 3, ncorpus=ncd)
     ni = run_stream(ctx, "I", i_lines, drv, exes, 3, ncorpus=nci)
     nt = run_stream(ctx, "T", t_lines, drv, exes, 4, ncorpus=nct)
-    ctx.cov["traces_validated_against_impl"] = nd + ni + nt if drv else 0
+    ctx.cov["traces_validated_against_impl"] = nd + ni + nt + nh if drv else 0
+
+    # ---- worst-case size + ICC of lossless transforms: NOREALLOC into exactly tj3TransformBufSize() bytes over
+    #      {source ICC} x {instance ICC} x TJPARAM_SAVEMARKERS x TJXOPT_COPYNONE x {tj3GetICCProfile before}
+    xl = []
+    for src in (0, 3000):
+        for inst in (0, 100, 3000, 70000):
+            for save in range(5):
+                for cn in (0, 1):
+                    for getb in (0, 1):
+                        xl.append("xicc %d %d %d %d %d %d %d" % (src, inst, save, cn, getb, rng.below(8), rng.below(1000)))
+    for _ in range(ctx.n(20, 300)):
+        xl.append("xicc %d %d %d %d %d %d %d" % (rng.choice([0, 1, 2500, 65519, 70000]), rng.choice([0, 1, 2500, 65520, 140000]),
+                                                 rng.below(5), rng.below(2), rng.below(2), rng.below(8), rng.below(1000)))
+    ml = model_lines(ctx, drv, xl)
+    rc, out, err = run_lines(exes["simd"], xl)
+    if rc != 0:
+        ctx.violation("crash in the transform/ICC stream rc=%d: %s" % (rc, err[-300:]), {"lines": xl[max(0, len(out) - 2):][:1], "stderr": err[-2000:]},
+                      signature="xicc:crash")
+    under = 0
+    for i, l in enumerate(xl):
+        o = out[i].strip() if i < len(out) else ""
+        m = re.match(r"xicc term=(-?\d+) written=(-?\d+) total=(\d+) cap=(\d+) norealloc=(\w+)", o)
+        if not m:
+            ctx.broken_tie("harness:xicc", "unexpected output %s for %s" % (o[:80], l))
+            continue
+        term, written, ok = int(m.group(1)), int(m.group(2)), m.group(5)
+        src, inst, save, cn, getb = [int(x) for x in l.split()[1:6]]
+        ctx.count("xicc", 1, ("xicc", src > 0, inst, save, cn, getb, ok))
+        under += term < written
+        if ok != "ok":
+            if getb and src > 0 and save in (2, 4) and not cn:
+                cls = "after-get-icc-profile"
+            elif src == 0 and inst > 0 and save in (2, 4) and not cn:
+                cls = "no-source-profile"
+            else:
+                cls = "save%d-copynone%d-src%d-inst%d" % (save, cn, min(src, 1), min(inst, 1))
+            ctx.violation("a buffer of exactly tj3TransformBufSize() bytes is refused/overrun (%s): %s -> %s  [source ICC %d, instance ICC %d, "
+                          "SAVEMARKERS %d, COPYNONE %d, tj3GetICCProfile before %d]" % (ok, l, o, src, inst, save, cn, getb),
+                          {"lines": [l], "impl": o, "model": ml[i] if ml else None}, signature="xform-icc-undersized:" + cls)
+        if ml is not None and ml[i].strip() != "xicc term=%d written=%d" % (term, written):
+            ctx.log("transform/ICC model and implementation disagree: %s\n  model: %s\n  impl : %s" % (l, ml[i], o))
+            ctx.broken_tie("correspondence:xicc", "ICC term/payload differ on %s: model %s impl %s" % (l, ml[i][:60], o[:80]))
+    ctx.cov["xicc_term_below_payload"] = under
 
     # ---- arithmetic: ICC overhead and tj3JPEGBufSize, model vs implementation vs closed form
     ar = ["icc %d" % n for n in [1, 2, 100, 65518, 65519, 65520, 131037, 131038, 131039, 200000] + [rng.range(1, 400000) for _ in range(ctx.n(6, 40))]]
